@@ -226,9 +226,16 @@ def main():
             specs.append(("gofuzz", part, env, log, part.get("timeout", {}).get(tier, 1800), repo, execs))
             meta.append((part, 0, env["VERIF_OUT"], log))
             continue
+        shard_list = range(nsh)
         if replay:
-            nsh = 1
-        for sh in range(nsh):
+            # re-run exactly the shard that produced the witness (same seed, tier and shard count);
+            # engine-based tests run only the recorded program ($VERIF_REPLAY)
+            rf = json.load(open(replay))
+            nsh = int(rf.get("shards", nsh))
+            shard_list = [int(rf.get("shard", 0))]
+            seed = int(rf.get("seed", seed))
+            tier = rf.get("tier", tier)
+        for sh in shard_list:
             env = goenv()
             env.update({"VERIF_SEED": str(seed), "VERIF_TIER": tier, "VERIF_SHARD": str(sh), "VERIF_SHARDS": str(nsh),
                         "VERIF_OUT": os.path.join(outdir, f"{part['name']}-{sh}.json"), "VERIF_REPO": repo,
@@ -377,7 +384,8 @@ def main():
         seen_sig.add(sig)
         rp = os.path.join(EVID, "replays", f"{pid}-{seed}-{pname}-{hashlib.sha1(sig.encode()).hexdigest()[:8]}.json")
         os.makedirs(os.path.dirname(rp), exist_ok=True)
-        json.dump({"property": pid, "part": pname, "seed": seed, "tier": tier, "shard": sh, "sig": sig, "desc": desc, "witness": witness}, open(rp, "w"), indent=1)
+        nshards = next((p.get("shards", {}).get(tier, 1) for p in prop["parts"] if p["name"] == pname), 1)
+        json.dump({"property": pid, "part": pname, "seed": seed, "tier": tier, "shard": sh, "shards": nshards, "sig": sig, "desc": desc, "witness": witness}, open(rp, "w"), indent=1)
         replays.append((sig, desc, rp))
 
     # ---- evidence
@@ -402,6 +410,15 @@ def main():
         cov["notes"] = merged["notes"]
     ev = {"property_id": pid, "tier": tier, "seed": seed, "level": prop["level"], "coverage": cov,
           "assumptions": prop.get("assumptions", []), "wall_s": round(time.time() - t_start, 2), "violations": len(new_viol)}
+    if replay:
+        # a replay re-executes one witness: it reports, but does not replace the evidence of a full run
+        for sig, desc, rp in replays:
+            print(f"VIOLATION property={pid} replay={rp}")
+            print(f"  {sig}: {desc[:400]}")
+        for m in infra:
+            sys.stderr.write("INFRASTRUCTURE: " + m + "\n")
+        print(f"{pid} replay of {replay}: {'violation reproduced' if new_viol else 'no violation on this tree'} (cases re-executed: {cov['evaluations']})")
+        return 1 if new_viol else (2 if infra else 0)
     json.dump(ev, open(evid_path + ".tmp", "w"), indent=1, default=str)
     os.replace(evid_path + ".tmp", evid_path)
 
